@@ -734,3 +734,20 @@ class Reporter:
 
 def case_key(obj):
     return hashlib.sha1(json.dumps(to_json(obj), sort_keys=True).encode()).hexdigest()
+
+
+class SubBytes(bytes):
+    """a proper subclass of bytes (like hexbytes.HexBytes): a legal key / value wherever bytes are"""
+
+
+def subify(o):
+    """the same structure with every plain bytes object replaced by an instance of a bytes subclass"""
+    if type(o) is bytes:
+        return SubBytes(o)
+    if isinstance(o, tuple):
+        return tuple(subify(x) for x in o)
+    if isinstance(o, list):
+        return [subify(x) for x in o]
+    if isinstance(o, dict):
+        return {k: subify(v) for k, v in o.items()}
+    return o
